@@ -29,6 +29,7 @@ ASSUMPTIONS = [
     "histories are date-monotone (R3): local dates non-decreasing in instant order, so 'dated up to the to-date' is unambiguous",
     "sums compared to 1e-25 relative (RP2Decimal additions round at 31 significant digits)",
 ]
+RULE += e2e.RULE_SUFFIX
 
 CFG = gen.GenCfg(min_steps=6, max_steps=20, long_gaps=True)
 REL = Fraction(1, 10**25)
